@@ -451,7 +451,9 @@ where
         let t = |s: i64, n: i32| jiff::Timestamp::new(s, n).ok();
         let strs = ["", "alice", "a\"b\\c\n", "é😀", "x".repeat(300).leak() as &str];
         let footers = [json!({"kid": "k4.lid.abc"}), json!({"path": "a[?(@.b[?(@.c[?(@.d[?(@.e[[[[[[[[[[[[[[[[[["}), json!([[[[[[[[[[[[[[[[[[[[1]]]]]]]]]]]]]]]]]]]]),
-                       json!({"re": "[[[[[[[[[[[[[[[[[[[[x", "z": "}}}}"}), json!("just a string"), json!({"a": {"b": {"c": {"d": [1, 2, {"e": null}]}}}})];
+                       json!({"re": "[[[[[[[[[[[[[[[[[[[[x", "z": "}}}}"}), json!("just a string"), json!({"a": {"b": {"c": {"d": [1, 2, {"e": null}]}}}}),
+                       // scalar documents, among them the ones an Option / unit footer serialises to
+                       json!(null), json!(false), json!(0), json!(""), json!([]), json!({})];
         let n = if slow { 6 } else if cfg.thorough { 128 } else { 24 };
         for i in 0..n {
             let mask = if cfg.thorough && !slow { i } else { rng.below(128) };
@@ -1121,6 +1123,9 @@ where
             for idx in 0..n {
                 seal_lib::<B, P>(rec, st, &km.seal, &claims, &footer, &[], (false, false), Some((idx, false)));
                 seal_lib::<B, P>(rec, st, &km.seal, &claims, &footer, &[], (false, false), Some((idx, true)));
+                // an outage: this draw and every later one fail (code that tries again must still give up)
+                rng::outage_next();
+                seal_lib::<B, P>(rec, st, &km.seal, &claims, &footer, &[], (false, false), Some((idx, false)));
             }
         }
         // and once more without faults: the key still works
